@@ -4,7 +4,7 @@ from concurrent.futures import ThreadPoolExecutor
 VERIF = os.path.dirname(os.path.dirname(os.path.abspath(__file__)))
 REPO = os.environ.get('VERIF_REPO', '/repo')
 ALT = os.path.realpath(REPO) != '/repo'   # mutant self-test: keep build cache and evidence of the real tree untouched
-BUILD = os.path.join(VERIF, 'build', 'alt') if ALT else os.path.join(VERIF, 'build')
+BUILD = os.path.join(VERIF, 'build', os.environ.get('VERIF_ALT_NAME', 'alt')) if ALT else os.path.join(VERIF, 'build')   # VERIF_ALT_NAME: several mutant runs side by side
 EVDIR = os.path.join(BUILD, 'evidence') if ALT else os.path.join(VERIF, 'evidence')
 NCPU = int(os.environ.get('VERIF_JOBS', '16'))
 CXX = os.environ.get('VERIF_CXX', 'g++')
